@@ -354,11 +354,31 @@ func rootReuseDump(pj *simdjson.ParsedJson) (s string, err error) {
 		}
 	}()
 	var b strings.Builder
-	dst := pj.Iter()
-	dst.Advance()     // onto the first root: a container's extent is queued
-	dst.AdvanceInto() // into it
-	dst.AdvanceInto()
-	dst.Advance()
+	// three ways a destination is left behind by earlier use: standing on a root with
+	// the skip over it still queued; standing on the first scalar inside (its value word
+	// queued); standing on an inner container
+	dirty := func(k int) simdjson.Iter {
+		d := pj.Iter()
+		switch k % 3 {
+		case 0:
+			d.Advance()
+		case 1:
+			d.AdvanceInto()
+			d.AdvanceInto()
+			for j := 0; j < 6; j++ {
+				if t := d.AdvanceInto(); t == simdjson.TagString || t == simdjson.TagInteger || t == simdjson.TagFloat || t == simdjson.TagUint || t == simdjson.TagEnd {
+					break
+				}
+			}
+		default:
+			d.AdvanceInto()
+			d.AdvanceInto()
+			d.Advance()
+		}
+		return d
+	}
+	round := 0
+	dst := dirty(round)
 	it := pj.Iter()
 	var obj simdjson.Object
 	var arr simdjson.Array
@@ -389,9 +409,9 @@ func rootReuseDump(pj *simdjson.ParsedJson) (s string, err error) {
 			return "", err
 		}
 		b.WriteByte('|')
-		// leave the destination dirty for the next round
-		dst.AdvanceInto()
-		dst.Advance()
+		// the destination for the next root is again one that was used for something else
+		round++
+		dst = dirty(round)
 	}
 	return b.String(), nil
 }
